@@ -32,6 +32,7 @@ KNOWN_FINDINGS = VERIF / "known_findings.jsonl"
 PROVED_TIERS = ("P", "R", "F", "L")
 
 EXIT_OK, EXIT_VIOLATION, EXIT_UNDECIDED, EXIT_CRASH = 0, 1, 2, 3
+MAX_VIOLATIONS_PER_OBLIGATION = 8
 
 
 def src_path(module: str) -> Path:
@@ -339,14 +340,20 @@ def report(prop: str, tier: str, seed: int, mod: Any, obs: list[Ob], results: di
             if not out.witnesses:
                 out.witnesses = [Witness(what=out.detail or "obligation refuted", verifier_output=out.detail)]
             new = 0
+            suppressed = 0
             for i, w in enumerate(out.witnesses):
                 f = next((f for f in ctx.findings if f.matches(ob.oid, w)), None)
                 if f is not None:
                     known_hit.setdefault(f.id, (f, w.match_key()))
                 else:
+                    new += 1
+                    if new > MAX_VIOLATIONS_PER_OBLIGATION:
+                        suppressed += 1
+                        continue
                     p = write_replay(prop, ob.oid, i, ob, out, w)
                     violations.append((ob, out, w, p))
-                    new += 1
+            if suppressed:
+                print(f"NOTE: {suppressed} further unlisted failing cases of {ob.oid} not printed (same run, see evidence)")
             if new == 0:
                 row_status = "known-finding"
                 # every failure of this obligation is a listed finding: the remaining elementary
